@@ -546,10 +546,10 @@ func r14CallSites(c *RuleCtx) {
 		c.check(len(bad) == 0, "callsite/"+funcShortName(caller), c.pos(cs), "persistFooter is called in "+funcShortName(caller)+" with each argument in its own role (numDocs, stored, fields, sections, docValue, chunkMode, CRC)",
 			strings.Join(bad, "; "), "call: "+describeInstr(c.p, cs))
 		// merge: the chunk mode in the footer is the one given to the merge
-		if caller.Name() == "mergeSegmentBases" {
+		if namedFn(caller, "mergeSegmentBases") {
 			var mtw ssa.CallInstruction
 			for _, cs2 := range callSites(caller) {
-				if f := staticCallee(cs2); f != nil && f.Name() == "mergeToWriter" {
+				if f := staticCallee(cs2); f != nil && namedFn(f, "mergeToWriter") {
 					mtw = cs2
 				}
 			}
@@ -854,9 +854,9 @@ func chunkRole(v ssa.Value) string {
 				switch {
 				case f.Name() == "SetChunkSize" && f.Signature.Recv() != nil && isNamed(f.Signature.Recv().Type(), zapPkgPath, "chunkedIntCoder"):
 					role = "postings"
-				case f.Name() == "newChunkedIntCoder":
+				case namedFn(f, "newChunkedIntCoder"):
 					role = "postings"
-				case f.Name() == "newChunkedContentCoder":
+				case namedFn(f, "newChunkedContentCoder"):
 					role = "docvalues"
 				}
 			case *ssa.BinOp:
